@@ -531,16 +531,21 @@ func (p *parser) readStr(term byte) string {
 
 func (p *parser) readRegex() *regexp.Regexp {
 	start := p.pos
+	closed := false
 out:
 	for p.pos < len(p.buf) {
 		b := p.buf[p.pos]
 		p.pos++
 		switch b {
 		case '/':
+			closed = true
 			break out
 		case '\\':
 			p.pos++ // skip and then continue
 		}
+	}
+	if !closed || len(p.buf) < p.pos {
+		p.raise("regex not terminated")
 	}
 	rx, err := regexp.Compile(string(p.buf[start : p.pos-1]))
 	if err != nil {
@@ -659,7 +664,7 @@ func (p *parser) readToken() []byte {
 }
 
 func (p *parser) readOpArgs(o *op) (eq *Equation) {
-	if p.buf[p.pos] != '(' {
+	if len(p.buf) <= p.pos || p.buf[p.pos] != '(' {
 		p.raise("expected a %s function", o.name)
 	}
 	eq = &Equation{o: o}
